@@ -47,6 +47,17 @@ def mk(model, kind, dims, wrap=False):
     return Envs.GridWorld(model, *dims, wrap_env=wrap)
 
 
+def lookup(world, args):
+    """get_cell written positionally, by keyword or mixed - chosen by the coordinates themselves."""
+    names = ('x', 'y', 'z')
+    style = (sum(abs(v) for v in args) + len(args)) % 3
+    if style == 0:
+        return world.get_cell(*args)
+    if style == 1:
+        return world.get_cell(**dict(zip(names, args)))
+    return world.get_cell(args[0], **dict(zip(names[1:], args[1:])))
+
+
 def check_shape(case):
     reset_library()
     kind, dims = case['kind'], case['dims']
@@ -101,7 +112,7 @@ def check_shape(case):
                                         expected=[x, y, z], observed=list(back))
                     args = [x, y, z][:{'discrete': 3, 'line': 1, 'grid': 2}[kind]]
                     try:
-                        row = world.get_cell(*args)
+                        row = lookup(world, args)
                     except IndexError as e:
                         raise Violation(f'get_cell{tuple(args)} on shape {dims} raised IndexError for an in-range '
                                         f'cell', expected='the row of that cell', observed=str(e))
@@ -119,7 +130,7 @@ def check_shape(case):
                         continue      # not expressible through this world's entry point
                     args = [x, y, z][:narg]
                     try:
-                        row = world.get_cell(*args)
+                        row = lookup(world, args)
                     except IndexError:
                         continue
                     raise Violation(f'get_cell{tuple(args)} outside shape {dims} did not raise IndexError',
@@ -222,11 +233,12 @@ AMBIENT_LEGS = True
 def run(ctx):
     cases = [{'leg': 'shape', 'kind': k, 'dims': d, 'wrap': w} for k, d in shapes(ctx.tier) for w in (False, True)]
     cases += [{'leg': 'big', 'kind': 'line', 'dims': [40000]}, {'leg': 'big', 'kind': 'discrete', 'dims': [0, 33000, 0]},
+              {'leg': 'big', 'kind': 'discrete', 'dims': [0, 0, 70000]}, {'leg': 'big', 'kind': 'discrete', 'dims': [1, 1, 66000]},
               {'leg': 'big', 'kind': 'discrete', 'dims': [48, 40, 36]}]
     if ctx.small:
         cases = [c for c in cases if c['leg'] != 'big']
     if ctx.tier == 'thorough':
-        cases += [{'leg': 'big', 'kind': 'discrete', 'dims': [0, 0, 70000]}, {'leg': 'big', 'kind': 'grid', 'dims': [300, 300]},
+        cases += [{'leg': 'big', 'kind': 'discrete', 'dims': [0, 0, 2 ** 17 + 5]}, {'leg': 'big', 'kind': 'grid', 'dims': [300, 300]},
                   {'leg': 'big', 'kind': 'discrete', 'dims': [2, 33000, 0]}]
     par.pmap(ctx, chunk_fn, [cases[i::ctx.procs * 2] for i in range(ctx.procs * 2)], procs=ctx.procs)
     for c in (cases[0], cases[27], cases[-1]):
